@@ -6,6 +6,7 @@ package cb
 import (
 	"context"
 	"fmt"
+	"math"
 	"math/big"
 	"net/http"
 	"net/http/httptest"
@@ -24,7 +25,12 @@ type config struct {
 	order                           int  // index into optionOrders: the order in which the three duration options are passed to New
 	edge                            bool // sub-millisecond timing around the end of the fallback period (own small alphabet)
 	companion                       bool // a second breaker with other durations completes a full cycle before each build
+	huge                            int  // index into hugeFallbacks (0: none): a fallback period of centuries; own alphabet, the clock stays in this century
 }
+
+// hugeFallbacks: "stay tripped for good" as it is commonly written, and 280 years - trip deadlines beyond the
+// year 2262, where a time.Time no longer fits into int64 nanoseconds.
+var hugeFallbacks = []time.Duration{0, time.Duration(math.MaxInt64), 280 * 365 * 24 * time.Hour}
 
 // optionOrders: every permutation of (FallbackDuration, RecoveryDuration, CheckPeriod).
 var optionOrders = [][3]int{{0, 1, 2}, {0, 2, 1}, {1, 0, 2}, {1, 2, 0}, {2, 0, 1}, {2, 1, 0}}
@@ -325,6 +331,16 @@ func alphabet(cfg config, prop, tier string) ([]string, []opDesc) {
 		names = append(names, fmt.Sprintf("Req(%d,%v)", code, lat))
 		descs = append(descs, opDesc{0, code, lat, 0})
 	}
+	if cfg.huge != 0 {
+		// the shield lasts for centuries: requests, and steps of the clock that stay far below the fallback period
+		addReq(200, 0)
+		addReq(cfg.badCode, 0)
+		for _, d := range dedupe([]time.Duration{cfg.checkPeriod + eps, cfg.recovery / 2, cfg.recovery + eps, 24 * time.Hour}) {
+			names = append(names, fmt.Sprintf("Advance(%v)", d))
+			descs = append(descs, opDesc{1, 0, 0, d})
+		}
+		return names, descs
+	}
 	if cfg.edge {
 		// requests in the last fraction of a millisecond of the fallback period, recovery periods of microseconds
 		addReq(200, 0)
@@ -429,7 +445,7 @@ func model(cfg config, prop, tier string, depth int) *lib.Model[*sys] {
 				continue
 			}
 			rep.Violate(p[0], p[1]+" ["+cfg.String()+"]", map[string]any{"engine": "xstate", "part": "cb", "fallback_ns": int64(cfg.fallback), "recovery_ns": int64(cfg.recovery),
-				"check_ns": int64(cfg.checkPeriod), "option_order": cfg.order, "edge": cfg.edge, "companion": cfg.companion, "cond": cfg.cond, "bad_code": cfg.badCode, "tier": tier, "ops": m.OpNames(hist), "observations": obs})
+				"check_ns": int64(cfg.checkPeriod), "option_order": cfg.order, "edge": cfg.edge, "huge": cfg.huge, "companion": cfg.companion, "cond": cfg.cond, "bad_code": cfg.badCode, "tier": tier, "ops": m.OpNames(hist), "observations": obs})
 		}
 	}
 	return m
@@ -463,7 +479,7 @@ func configs(prop, tier string) []config {
 					if tier != "thorough" && (i+j+k+l)%2 == 1 {
 						continue // quick: half of the product, every value of every parameter still occurs
 					}
-					out = append(out, config{f, r, c, cd.c, cd.code, 0, false, false})
+					out = append(out, config{f, r, c, cd.c, cd.code, 0, false, false, 0})
 				}
 			}
 		}
@@ -626,13 +642,27 @@ func Run(tier string, sh lib.Shard, rep *lib.Report) {
 			m.Run(rep)
 			rep.Count("sub_millisecond_searches")
 		}
+		// ... and fallback periods of centuries ("tripped for good"): the deadline lies beyond the year 2262
+		for h := 1; h < len(hugeFallbacks); h++ {
+			cfg := config{fallback: hugeFallbacks[h], recovery: 2 * time.Second, checkPeriod: 100 * ms, cond: "NetworkErrorRatio() > 0.5", badCode: 502, huge: h}
+			m := model(cfg, prop, tier, depth)
+			m.Name += "/fallback-of-centuries"
+			m.Shard, m.ShardLevel = sh, 2
+			m.Run(rep)
+			rep.Count("century_fallback_searches")
+		}
+		rep.Require("century_fallback_searches")
 	}
 	rep.Nontrivial = rep.Counters["requests_shielded_while_tripped"] + rep.Counters["requests_passed_during_recovery"] + rep.Counters["requests_refused_during_recovery"]
 }
 
 func Replay(rp map[string]any) (bool, string) {
 	cfg := config{time.Duration(int64(rp["fallback_ns"].(float64))), time.Duration(int64(rp["recovery_ns"].(float64))), time.Duration(int64(rp["check_ns"].(float64))),
-		rp["cond"].(string), int(rp["bad_code"].(float64)), 0, false, false}
+		rp["cond"].(string), int(rp["bad_code"].(float64)), 0, false, false, 0}
+	if h, ok := rp["huge"].(float64); ok && h > 0 {
+		cfg.huge = int(h)
+		cfg.fallback = hugeFallbacks[cfg.huge]
+	}
 	if o, ok := rp["option_order"].(float64); ok {
 		cfg.order = int(o)
 	}
